@@ -705,6 +705,42 @@ func (r *rewriter) post(c *astutil.Cursor) bool {
 	return true
 }
 
+// recvNamed: name of the receiver's named type ("" for functions).
+func recvNamed(fn *types.Func) string {
+	sig, _ := fn.Type().(*types.Signature)
+	if sig == nil || sig.Recv() == nil {
+		return ""
+	}
+	t := sig.Recv().Type()
+	if p, ok := t.(*types.Pointer); ok {
+		t = p.Elem()
+	}
+	if n, ok := types.Unalias(t).(*types.Named); ok {
+		return n.Obj().Name()
+	}
+	return ""
+}
+
+// addrOfNamed: the sync.<want> value the method is called on, as a pointer: x if x is a
+// *sync.<want>, &x if it is a sync.<want>, &x.<want> if the method is promoted from an
+// embedded field.
+func (r *rewriter) addrOfNamed(x ast.Expr, want string) ast.Expr {
+	t := r.info.TypeOf(x)
+	isPtr := false
+	if t != nil {
+		if p, ok := types.Unalias(t).(*types.Pointer); ok {
+			isPtr, t = true, p.Elem()
+		}
+		if n, ok := types.Unalias(t).(*types.Named); ok && n.Obj().Name() == want && n.Obj().Pkg() != nil && n.Obj().Pkg().Path() == "sync" {
+			if isPtr {
+				return x
+			}
+			return &ast.UnaryExpr{Op: token.AND, X: x}
+		}
+	}
+	return &ast.UnaryExpr{Op: token.AND, X: &ast.SelectorExpr{X: x, Sel: ast.NewIdent(want)}}
+}
+
 func (r *rewriter) rewriteCall(c *astutil.Cursor, call *ast.CallExpr) {
 	obj := calleeObj(r.info, call)
 	fn, ok := obj.(*types.Func)
@@ -730,6 +766,26 @@ func (r *rewriter) rewriteCall(c *astutil.Cursor, call *ast.CallExpr) {
 	case pkg == "time" && (fn.Name() == "Now" || fn.Name() == "Since"):
 		// inside a bubble this is the fake clock; outside (snapsim) it is a real clock
 		inv.Uncontrolled = append(inv.Uncontrolled, r.site(call.Pos(), "time."+fn.Name()+" (fake clock inside a bubble only)"))
+	case pkg == "sync" && (fn.Name() == "Wait" || fn.Name() == "Signal" || fn.Name() == "Broadcast") && recvNamed(fn) == "Cond":
+		sel, ok := ast.Unparen(call.Fun).(*ast.SelectorExpr)
+		if !ok {
+			return
+		}
+		site := r.site(call.Pos(), "cond."+fn.Name())
+		inv.MutexSites = append(inv.MutexSites, site)
+		call.Fun = &ast.SelectorExpr{X: ast.NewIdent("simrt"), Sel: ast.NewIdent("Cond" + fn.Name())}
+		call.Args = []ast.Expr{strLit(site), r.addrOfNamed(sel.X, "Cond")}
+		r.changed = true
+	case pkg == "sync" && fn.Name() == "Lock" && recvNamed(fn) == "Locker":
+		sel, ok := ast.Unparen(call.Fun).(*ast.SelectorExpr)
+		if !ok {
+			return
+		}
+		site := r.site(call.Pos(), "locker.Lock")
+		inv.MutexSites = append(inv.MutexSites, site)
+		call.Fun = &ast.SelectorExpr{X: ast.NewIdent("simrt"), Sel: ast.NewIdent("LockLocker")}
+		call.Args = []ast.Expr{strLit(site), sel.X}
+		r.changed = true
 	case pkg == "sync" && (fn.Name() == "Lock" || fn.Name() == "RLock"):
 		sig, _ := fn.Type().(*types.Signature)
 		if sig == nil || sig.Recv() == nil {
@@ -749,6 +805,19 @@ func (r *rewriter) rewriteCall(c *astutil.Cursor, call *ast.CallExpr) {
 		}
 		if _, isStmt := c.Parent().(*ast.ExprStmt); !isStmt {
 			inv.Unsupported = append(inv.Unsupported, r.site(call.Pos(), "mutex-lock-not-a-statement"))
+			return
+		}
+		if n.Obj().Name() == "RWMutex" {
+			// writer preference needs the identity of the mutex: simrt.RWLock(site, &mu, write)
+			site := r.site(call.Pos(), "rwmutex."+fn.Name())
+			inv.MutexSites = append(inv.MutexSites, site)
+			write := "false"
+			if fn.Name() == "Lock" {
+				write = "true"
+			}
+			call.Fun = &ast.SelectorExpr{X: ast.NewIdent("simrt"), Sel: ast.NewIdent("RWLock")}
+			call.Args = []ast.Expr{strLit(site), r.addrOfNamed(sel.X, "RWMutex"), ast.NewIdent(write)}
+			r.changed = true
 			return
 		}
 		try := "TryLock"
